@@ -383,7 +383,7 @@ def run(chk):
             chk.obligation("R09.8", ok, key=(src, tuple(P.blocks)), sample={"function": F8.name, "unit": src, "exit": kind, "stored_minus_last_consumed": so - lo})
             if not ok:
                 chk.finding(Finding("R09.8", src, F8.name, "hit-index", "on a path that leaves the scan %s the value stored to *idx is (index of the last byte hashed) %+d; the contract is %+d" % ("through the hit test" if kind == "hit" else "at the bound", so - lo, want), loc=stored[1].loc()))
-    chk.floor("C scan-loop paths judged for the stored index", nir, 4)
+    chk.floor("C scan-loop paths judged for the stored index", nir, 2)
     # ---- R09.6 unsigned bound
     nb6 = 0
     for src, M in sorted(mods.items()):
